@@ -385,7 +385,14 @@ func (e *Engine) parseContractFile(file, pkg string) error {
 			if curLoop != nil {
 				addClause(&curLoop.Decreases, "decreases")
 			} else if cur != nil {
-				addClause(&cur.Decreases, "decreases")
+				// lexicographic measure: one clause per component
+				for _, part := range splitCommas(rest) {
+					c := &Clause{Line: where, Label: fmt.Sprintf("decreases%d", len(cur.Decreases)+1)}
+					p := &pending{c: c, raw: strings.TrimSpace(part), kind: "decreases"}
+					pend = append(pend, p)
+					lastRaw = &p.raw
+					cur.Decreases = append(cur.Decreases, c)
+				}
 			}
 		case "orderfree":
 			if curLoop != nil {
@@ -939,7 +946,7 @@ func (c *specCtx) selectField(base TV, name string) TV {
 			h := fe.comp(c.cur, fieldComp(so, n, st, i), arrSort(SInt, so.sortOf(ft)))
 			t := tSelect(h, base.T)
 			if _, isSlice := ft.Underlying().(*types.Slice); isSlice && !strings.Contains(t.S, "q_") {
-				fe.assume(tBool(true), Term{"(wfSlice " + t.S + ")", SBool})
+				fe.assume(tBool(true), fe.wf(t, ft, c.cur))
 			}
 			return TV{t, ft}
 		}
@@ -1227,6 +1234,38 @@ func (c *specCtx) call(x *ast.CallExpr) TV {
 		first := tSelect(tSelect(e, slRef(a.T)), slOff(a.T))
 		cond := tAnd(tEq(slLen(a.T), tInt(1)), Term{"((_ is VArr) " + first.S + ")", SBool})
 		return TV{tIte(cond, Term{"(varr " + first.S + ")", SSlice}, a.T), a.Typ}
+	case "framed": // framed(C1, C2, ...): objects of these components that existed at entry are unchanged
+		var eqs []Term
+		for _, a := range x.Args {
+			id, ok := a.(*ast.Ident)
+			if !ok {
+				engErr("framed() takes component names")
+			}
+			comp := id.Name
+			srt, ok := fe.eng.compSorts[comp]
+			if !ok {
+				engErr("framed(): unknown component %s", comp)
+			}
+			aset := ""
+			switch {
+			case strings.HasPrefix(comp, "E_"):
+				aset = "A_" + comp
+			case strings.HasPrefix(comp, "MD_"), strings.HasPrefix(comp, "MV_"), strings.HasPrefix(comp, "MC_"):
+				aset = "A_M_" + comp[3:]
+			default:
+				engErr("framed(): unsupported component %s", comp)
+			}
+			al := fe.comp(c.old, aset, arrSort(SInt, SBool))
+			cur := fe.comp(c.cur, comp, srt)
+			old := fe.comp(c.old, comp, srt)
+			q := "q_fr_" + sanitize(comp)
+			if atomRe.MatchString(cur.S) {
+				eqs = append(eqs, Term{fmt.Sprintf("(forall ((%s Int)) (! (=> (select %s %s) (= (select %s %s) (select %s %s))) :pattern ((select %s %s))))", q, al.S, q, cur.S, q, old.S, q, cur.S, q), SBool})
+			} else {
+				eqs = append(eqs, Term{fmt.Sprintf("(forall ((%s Int)) (=> (select %s %s) (= (select %s %s) (select %s %s))))", q, al.S, q, cur.S, q, old.S, q), SBool})
+			}
+		}
+		return TV{tAnd(eqs...), boolT}
 	case "unchanged", "unchangedHeap": // the Borno-visible state (resp. its heap part) equals the entry state
 		n := len(snapComps)
 		if name == "unchangedHeap" {
